@@ -19,8 +19,15 @@ def _half(rng, lo=-8, hi=8):
 
 
 def gen_names(rng, ncat, nnum):
-    cat_pool = rng.choice([['c0', 'c1', 'c2'], ['a', 'a_1', 'b'], ['cat', 'x_0_y', 'Z'], ['k1', 'k10', 'k2']])
-    num_pool = rng.choice([['n0', 'n1'], ['x', 'a_x'], ['num', 'c0_']])
+    cat_pool = rng.choice([['c0', 'c1', 'c2'], ['a', 'a_1', 'b'], ['cat', 'x_0_y', 'Z'], ['k1', 'k10', 'k2'],
+                           ['label', 'label_prev', 'w'], ['w', 'W', 'Zeta'], ['-1', 'nan', 'None']])
+    num_pool = rng.choice([['n0', 'n1'], ['x', 'a_x'], ['num', 'c0_'], ['alpha', 'label_'], ['0', 'target_']])
+    if ncat > len(cat_pool):
+        cat_pool = cat_pool + [f'q{i}' for i in range(ncat - len(cat_pool))]
+        rng.shuffle(cat_pool)
+    if nnum > len(num_pool):
+        num_pool = num_pool + [f'm{i}' for i in range(nnum - len(num_pool))]
+        rng.shuffle(num_pool)
     return cat_pool[:ncat], num_pool[:nnum]
 
 
@@ -35,9 +42,24 @@ def relabel_by_count(col):
     return [rank[v] if v >= 0 else -1 for v in col], [cnt[v] for v in order]
 
 
+Y_SPECIAL = [-1.0, 0.5, 1.0, 0.0, 2.0 ** 24 + 2, -65536.0, 1.0e6]     # moderate magnitudes: the code sums in float32
+# float32-exact edge magnitudes for the numerical columns (they are only moved); infinities as strings: cases stay
+# strict JSON
+NUM_SPECIAL = [-1.0, 0.5, -0.0, 2.0 ** 24, 2.0 ** 24 + 2, -2.0 ** 31, 3.0e38, -3.0e38, 1e-38, 'inf', '-inf']
+
+
+def _num(rng):
+    r = rng.random()
+    if r < 0.05:
+        return NAN
+    if r < 0.10:
+        return rng.choice(NUM_SPECIAL)
+    return _half(rng)
+
+
 def gen_y(rng, task, n, K):
     if task == 'reg':
-        ys = [_half(rng) for _ in range(n)]
+        ys = [(rng.choice(Y_SPECIAL) if rng.random() < 0.06 else _half(rng)) for _ in range(n)]
         r = rng.random()
         if r < 0.12 and n:
             for i in range(n):
@@ -45,9 +67,15 @@ def gen_y(rng, task, n, K):
                     ys[i] = NAN
         elif r < 0.15:
             ys = [NAN] * n           # "Target value contains only nans."
-        return {'f': ys}
+        y = {'f': ys}
+        if rng.random() < 0.2:
+            y['dt'] = 'float64'
+        return y
     if task == 'bin':
-        return {'i': [rng.randint(0, 1) for _ in range(n)]}
+        y = {'i': [rng.randint(0, 1) for _ in range(n)]}
+        if rng.random() < 0.25:
+            y['dt'] = rng.choice(['int32', 'uint8', 'bool'])
+        return y
     ys = [rng.randrange(K) for _ in range(n)]
     if n:
         ys[rng.randrange(n)] = K - 1      # num_classes = y.max() + 1; other classes may be absent
@@ -57,7 +85,7 @@ def gen_y(rng, task, n, K):
 
 
 def gen_rows(rng, n, ncat, nnum, cards, p_missing=0.2):
-    num = [[(NAN if rng.random() < 0.05 else _half(rng)) for _ in range(nnum)] for _ in range(n)]
+    num = [[_num(rng) for _ in range(nnum)] for _ in range(n)]
     cat = [[(-1 if rng.random() < p_missing else rng.randrange(cards[j])) for j in range(ncat)] for _ in range(n)]
     return num, cat
 
@@ -70,8 +98,12 @@ def y_variant(rng, kind, base_y, idx, n, K):
         key = 'f' if 'f' in base_y else 'i'
         src = base_y[key]
         if idx is None:
-            return {key: [(_half(rng) if key == 'f' else rng.randrange(K)) for _ in range(n)]}
-        return {key: [src[i] for i in idx]}
+            y = {key: [(_half(rng) if key == 'f' else rng.randrange(K)) for _ in range(n)]}
+        else:
+            y = {key: [src[i] for i in idx]}
+        if 'dt' in base_y and (base_y['dt'] != 'bool' or all(v in (0, 1) for v in y[key])):
+            y['dt'] = base_y['dt']
+        return y
     if kind == 'zeros':
         return {'i': [0] * n}
     if kind == 'ones':
@@ -84,24 +116,52 @@ def y_variant(rng, kind, base_y, idx, n, K):
         return {'f': [_half(rng) for _ in range(n)]}
     if kind == 'floatnan':
         return {'f': [NAN] * n}
+    if kind == 'odd-dtype':       # label dtypes a fit would not accept are still irrelevant for a transform
+        dt = rng.choice(['int32', 'uint8', 'bool', 'float64', 'float16', 'int16'])
+        if dt in ('float64', 'float16'):
+            return {'f': [_half(rng) for _ in range(n)], 'dt': dt}
+        hi = 1 if dt == 'bool' else min(K + 2, 255) if dt == 'uint8' else K + 2
+        return {'i': [rng.randint(0, hi) for _ in range(n)], 'dt': dt}
     raise ValueError(kind)
 
 
-Y_KINDS = ['keep', 'keep', 'none', 'none', 'zeros', 'ones', 'low', 'big', 'float', 'floatnan']
+Y_KINDS = ['keep', 'keep', 'none', 'none', 'zeros', 'ones', 'low', 'big', 'float', 'floatnan', 'odd-dtype']
 
 
-def gen_case(rng):
+def _fit_in_domain(case, fit=None):
+    """the training frame is one the property quantifies over (same test as the oracle's)"""
+    fit = fit or case['fit']
+    y, n = fit['y'], len(fit['num'])
+    dom = (y is not None and n > 0 and all(k in case['stat_keys'] for k in case['num_names'])
+           and all(any(row[j] >= 0 for row in fit['cat']) for j in range(len(case['cat_names']))))
+    if dom and 'f' in y and all(v is None for v in y['f']):
+        dom = False
+    if dom and 'i' in y and min(y['i']) < 0:
+        dom = False
+    return dom
+
+
+def gen_case(rng, level=0, sc=None):
+    """sc: sizes taken from the stress ladder (harness/stress.py) for a scale case, else None"""
+    sc = sc or {}
     task = rng.choice(['reg', 'bin', 'multi'])
-    K = rng.randint(3, 5) if task == 'multi' else 2
+    if 'K' in sc:
+        task = 'multi'
+    K = sc.get('K') or (rng.randint(3, 5) if task == 'multi' else 2)
     r = rng.random()
     ncat = 0 if r < 0.07 else rng.randint(1, 3)
+    ncat = sc.get('ncat', ncat if not sc else max(ncat, 1))
     nnum = rng.randint(1, 2) if ncat == 0 else rng.randint(0, 2)
+    nnum = sc.get('nnum', nnum)
     cat_names, num_names = gen_names(rng, ncat, nnum)
     n = 0 if rng.random() < 0.02 else rng.randint(1, 10)
+    n = sc.get('fitrows', max(n, 1) if sc else n)
     cards = [rng.randint(1, 4) for _ in range(ncat)]
+    if 'card' in sc and ncat:
+        cards[rng.randrange(ncat)] = sc['card']
     num, raw = gen_rows(rng, n, ncat, nnum, cards)
     # make every categorical column have a non-missing entry (except a rare raising case)
-    allow_allmissing = rng.random() < 0.03
+    allow_allmissing = rng.random() < 0.03 and not sc
     cat_cols, counts = [], {}
     foreign = rng.random() < 0.35
     for j in range(ncat):
@@ -111,32 +171,70 @@ def gen_case(rng):
         col, cnt = relabel_by_count(col)
         if not cnt:
             cnt = [1]
+        if 'card' in sc and cards[j] == sc['card']:      # the vocabulary of the whole dataset is that large
+            cnt = cnt + [1] * max(0, sc['card'] - len(cnt))
         if foreign:       # statistics of the whole dataset while the transform is fitted on the train split
             cnt = [c + rng.randint(0, 5) for c in cnt] + [1] * rng.randint(0, 2)
+            if rng.random() < 0.15:
+                cnt[0] += rng.choice([2 ** 24 + 1, 10 ** 9, 65536])      # counts beyond float32's integer range
+            if rng.random() < 0.1:
+                cnt.append(0)                                         # a vocabulary entry that never occurs
             cnt.sort(reverse=True)
         cat_cols.append(col)
         counts[cat_names[j]] = cnt
     cat = [[cat_cols[j][i] for j in range(ncat)] for i in range(n)]
     y = gen_y(rng, task, n, K)
-    if rng.random() < 0.03:
+    if rng.random() < 0.03 and not sc:
         y = None
     stat_keys = num_names + cat_names + ['target']
     rng.shuffle(stat_keys)
-    if num_names and rng.random() < 0.02:
+    if num_names and rng.random() < 0.02 and not sc:
         stat_keys.remove(num_names[0])       # col_stats lacks a numerical column: KeyError in _fit
     scenario = 'normal'
     r = rng.random()
-    if r < 0.05:
+    if r < 0.05 and not sc:
         scenario = 'unfitted'
-    elif r < 0.25:
+    elif r < 0.20:
         scenario = 'roundtrip'
+    elif r < 0.27:
+        scenario = 'roundtrip_shared'     # load_state_dict(t.state_dict()) in memory: both objects are used afterwards
+    elif r < 0.37:
+        scenario = 'refit'                # the object was fitted on another frame before
+    elif r < 0.42:
+        scenario = 'late_fit'             # a transform attempt before fit, then fit
     fit = {'num': num, 'cat': cat, 'y': y}
     case = {'task': task, 'K': K, 'num_names': num_names, 'cat_names': cat_names, 'fit': fit, 'counts': counts,
             'stat_keys': stat_keys, 'scenario': scenario, 'transforms': []}
+    if ncat and rng.random() < 0.2:
+        case['cat_dt'] = 'int32'
+    if scenario == 'refit':
+        if not ncat or not _fit_in_domain(case):
+            case['scenario'] = scenario = 'normal'
+        else:
+            # the earlier fit: same schema, other rows / other task type / other class count
+            task0 = rng.choice(['reg', 'bin', 'multi'])
+            n0 = rng.randint(1, 10)
+            K0 = rng.randint(3, 6)
+            num0, cat0 = gen_rows(rng, n0, ncat, nnum, [len(counts[c]) for c in cat_names], p_missing=0.1)
+            for j in range(ncat):
+                if all(row[j] < 0 for row in cat0):
+                    cat0[0][j] = 0
+            y0 = gen_y(rng, task0, n0, K0)
+            if 'f' in y0:
+                y0['f'] = [0.25 if v is None else v for v in y0['f']]
+            else:
+                y0['i'] = [max(v, 0) for v in y0['i']]
+            case['prefit'] = {'num': num0, 'cat': cat0, 'y': y0}
     lens = [len(counts[c]) for c in cat_names]
-    for _ in range(rng.randint(3, 6)):
-        kind = rng.choices(['full', 'subset', 'single', 'fresh', 'unseen', 'allmissing', 'nocat', 'empty'],
-                           weights=[4, 8, 8, 6, 2, 1, 2, 1])[0]
+    ntrans = sc.get('calls') or rng.randint(3, 6)
+    big_rows = sc.get('rows')
+    for t_i in range(ntrans):
+        kind = rng.choices(['full', 'subset', 'single', 'fresh', 'unseen', 'allmissing', 'nocat', 'empty', 'twin', 'again'],
+                           weights=[4, 8, 8, 6, 2, 1, 2, 1, 4, 2])[0]
+        if big_rows and t_i < 2:
+            kind = rng.choice(['subset', 'fresh', 'twin'])
+        if kind in ('twin', 'again') and not case['transforms']:
+            kind = 'fresh'
         if kind in ('subset', 'single', 'allmissing') and n == 0:
             kind = 'fresh'
         if kind == 'nocat' and not num_names:
@@ -144,10 +242,18 @@ def gen_case(rng):
         if kind in ('unseen', 'allmissing') and ncat == 0:
             kind = 'fresh'
         idx = None
+        if kind == 'again':          # the very same rows and labels as an earlier frame of this history
+            prev = rng.choice(case['transforms'])
+            fr = copy.deepcopy(prev)
+            fr['again_of'] = fr.get('again_of', prev['tag'])
+            fr['tag'] = 'again'
+            case['transforms'].append(fr)
+            continue
         if kind == 'full':
             idx = list(range(n))
         elif kind == 'subset':
-            idx = [rng.randrange(n) for _ in range(rng.randint(1, n + 2))]
+            size = big_rows if (big_rows and t_i < 2) else rng.randint(1, n + 2)
+            idx = [rng.randrange(n) for _ in range(size)]
         elif kind in ('single', 'allmissing'):
             full_rows = [i for i in range(n) if all(v >= 0 for v in cat[i])]
             if kind == 'single':
@@ -160,6 +266,13 @@ def gen_case(rng):
             tnum, tcat = [list(num[i]) for i in idx], [list(cat[i]) for i in idx]
         else:
             m = rng.randint(1, 5)
+            if big_rows and t_i < 2:
+                m = big_rows
+            if kind == 'twin':       # as many rows as the previous frame, other content (a next mini-batch)
+                prev = case['transforms'][-1]
+                m = len(prev['num'])
+                if m == 0 or prev.get('drop_cat'):
+                    kind, m = 'fresh', rng.randint(1, 5)
             tnum, tcat = gen_rows(rng, m, ncat, nnum, lens or [1], p_missing=0.15)
             for j in range(ncat):       # keep the fresh frame inside the property's domain
                 if all(row[j] < 0 for row in tcat):
@@ -172,17 +285,58 @@ def gen_case(rng):
             for row in tcat:
                 row[j] = -1
         m = len(tnum)
+        ykind = rng.choice(Y_KINDS)
         fr = {'tag': kind, 'num': tnum, 'cat': tcat, 'drop_cat': kind == 'nocat',
-              'y': y_variant(rng, rng.choice(Y_KINDS), y, idx, m, K)}
+              'y': y_variant(rng, ykind, y, idx, m, K)}
         if kind == 'nocat':
             fr['cat'] = [[] for _ in range(m)]
+        if kind == 'full' and ykind == 'keep' and y is not None and scenario != 'unfitted' and rng.random() < 0.5:
+            fr['alias'] = 'fit-frame'      # the training frame object itself is transformed
+        elif kind == 'subset' and ykind == 'keep' and y is not None and scenario != 'unfitted' and rng.random() < 0.4:
+            fr['alias'] = 'indexed'        # tf_train[idx]: the frame is produced by indexing the training frame
+            fr['idx'] = idx
         case['transforms'].append(fr)
+    return case
+
+
+def gen_scale_case(rng, level):
+    from harness import stress
+    dim = rng.choice(['fitrows', 'rows', 'rows', 'ncat', 'nnum', 'card', 'K', 'calls'])
+    cap = {'fitrows': 65537, 'rows': 65537, 'ncat': 1025, 'nnum': 1025, 'card': 65537, 'K': 1025, 'calls': 1025}[dim]
+    size = stress.pick_size(rng, level, cap)
+    sc = {dim: size}
+    if dim == 'rows' and rng.random() < 0.5:
+        sc['fitrows'] = stress.pick_size(rng, min(level, 1), 4097)
+    if dim == 'card':
+        sc['fitrows'] = max(rng.randint(1, 10), min(size * 2, 5000))     # so that many categories really occur
+    if dim in ('K', 'ncat'):
+        sc['fitrows'] = rng.randint(1, 10) if rng.random() < 0.5 else stress.pick_size(rng, 0)
+        if dim == 'K' and rng.random() < 0.7:
+            sc['ncat'] = rng.randint(1, 2)
+    case = gen_case(rng, level, sc)
+    case['scale'] = dim
+    rows = max([len(case['fit']['num'])] + [len(fr['num']) for fr in case['transforms']])
+    width = len(case['num_names']) + len(case['cat_names']) * max(1, (case['K'] - 1 if case['task'] == 'multi' else 1))
+    card = max([len(v) for v in case['counts'].values()], default=0)
+    if rows * max(width, 1) > 200000 or rows > 6000 or rows * card > 5e7:
+        # (the list model indexes rows and categories by position)
+        case['oracle_only'] = True       # too long for the line protocol: judged by the direct oracle alone
+    case['volume'] = sum(len(fr['num']) for fr in [case['fit']] + case['transforms']) * max(width, 1)
     return case
 
 
 # ----------------------------------------------------------------------------- real objects
 
-def make_tf(fr, num_names, cat_names):
+def _y_tensor(y):
+    import torch
+    if y is None:
+        return None
+    if 'f' in y:
+        return torch.tensor([unnull(v) for v in y['f']], dtype=getattr(torch, y.get('dt', 'float32')))
+    return torch.tensor(y['i'], dtype=getattr(torch, y.get('dt', 'int64')))
+
+
+def make_tf(fr, num_names, cat_names, cat_dt='int64'):
     import torch
     from torch_frame import TensorFrame, stype
     n = len(fr['num'])
@@ -191,12 +345,9 @@ def make_tf(fr, num_names, cat_names):
         feat[stype.numerical] = torch.tensor([[unnull(v) for v in row] for row in fr['num']], dtype=torch.float32).reshape(n, len(num_names))
         names[stype.numerical] = list(num_names)
     if cat_names:
-        feat[stype.categorical] = torch.tensor(fr['cat'], dtype=torch.long).reshape(n, len(cat_names))
+        feat[stype.categorical] = torch.tensor(fr['cat'], dtype=getattr(torch, cat_dt)).reshape(n, len(cat_names))
         names[stype.categorical] = list(cat_names)
-    y = fr.get('y')
-    if y is not None:
-        y = torch.tensor([unnull(v) for v in y['f']], dtype=torch.float32) if 'f' in y else torch.tensor(y['i'], dtype=torch.long)
-    return TensorFrame(feat, names, y)
+    return TensorFrame(feat, names, _y_tensor(fr.get('y')))
 
 
 def make_col_stats(case):
@@ -217,6 +368,8 @@ def frame_names(case, fr):
 
 def fl(v):
     v = float(v)
+    if math.isinf(v):
+        return 'inf' if v > 0 else '-inf'
     return None if math.isnan(v) else v
 
 
@@ -249,13 +402,30 @@ def state_repr(t):
 
 
 def run_real(case, with_purity=True):
-    """the history fit -> (state_dict round trip) -> transform*; returns the canonical outcome"""
+    """the history (earlier fit) -> fit -> (state_dict round trip) -> transform*; returns the canonical outcome.
+    Every returned frame is read twice: right after its call and again after the LAST call of the history (a result
+    must not be changed by later calls on the same object); every input frame is re-read after its call and at the end."""
     import pickle
+    import torch
     from torch_frame.transforms import CatToNumTransform
+    cat_dt = case.get('cat_dt', 'int64')
     t = CatToNumTransform()
     res = {'fit': None, 'transforms': []}
+    tf_train = None
+    if case['scenario'] == 'late_fit' and case['transforms']:
+        fr0 = case['transforms'][0]
+        try:
+            t(make_tf(fr0, *frame_names(case, fr0), cat_dt=cat_dt))
+            res['pre_call'] = 'returned'
+        except Exception:
+            res['pre_call'] = 'raises'
+    if case.get('prefit') is not None:
+        try:
+            t.fit(make_tf(case['prefit'], case['num_names'], case['cat_names'], cat_dt=cat_dt), make_col_stats(case))
+        except Exception:
+            pass
     if case['scenario'] != 'unfitted':
-        tf_train = make_tf(case['fit'], case['num_names'], case['cat_names'])
+        tf_train = make_tf(case['fit'], case['num_names'], case['cat_names'], cat_dt=cat_dt)
         before = snapshot(tf_train)
         try:
             t.fit(tf_train, make_col_stats(case))
@@ -263,28 +433,50 @@ def run_real(case, with_purity=True):
         except Exception:
             res['fit'] = 'raises'
         res['fit_pure'] = snapshot(tf_train) == before
+    objs = [t]
     if case['scenario'] == 'roundtrip':
         sd = pickle.loads(pickle.dumps(copy.deepcopy(t.state_dict())))
         t = CatToNumTransform().load_state_dict(sd)
+        objs = [t]
+    elif case['scenario'] == 'roundtrip_shared':
+        t2 = CatToNumTransform().load_state_dict(t.state_dict())
+        objs = [t2, t]           # the calls alternate between the loaded object and the original
+        t = t2
     try:
         _ = t.transformed_stats
         stats_ok = True
     except Exception:
         stats_ok = False
     res['state'] = state_repr(t) if stats_ok or not t.is_fitted else {'state': 'broken'}
-    for fr in case['transforms']:
+    held = []
+    for k, fr in enumerate(case['transforms']):
         nn, cn = frame_names(case, fr)
-        tf = make_tf(fr, nn, cn)
+        if fr.get('alias') == 'fit-frame' and tf_train is not None:
+            tf = tf_train
+        elif fr.get('alias') == 'indexed' and tf_train is not None:
+            tf = tf_train[torch.tensor(fr['idx'], dtype=torch.long)]
+        else:
+            tf = make_tf(fr, nn, cn, cat_dt=cat_dt)
         before = snapshot(tf)
         try:
-            out = out_repr(t(tf))
+            raw = objs[k % len(objs)](tf)
+            out = out_repr(raw)
         except Exception:
-            out = 'raises'
+            raw, out = None, 'raises'
         if out != 'raises':
             out['pure'] = snapshot(tf) == before
         elif snapshot(tf) != before:
             out = 'raises-and-mutated'
         res['transforms'].append(out)
+        held.append((tf, before, raw))
+    # second reading, after the whole history
+    for out, (tf, before, raw) in zip(res['transforms'], held):
+        if isinstance(out, dict):
+            late = out_repr(raw)
+            out['stable'] = all(late[k] == out[k] for k in late)
+            out['rows'] = late['rows']
+            if snapshot(tf) != before:
+                out['pure'] = False
     return res
 
 
@@ -333,12 +525,17 @@ def model_outcome(case, reply):
             res['transforms'].append(out)
         else:
             res['transforms'].append({'numNames': out['numNames'], 'catNames': out['catNames'],
-                                      'rows': unbits(out['rows']), 'cat': out['cat'], 'pure': True})
+                                      'rows': unbits(out['rows']), 'cat': out['cat'], 'pure': True,
+                                      'stable': True})
+    if case['scenario'] == 'late_fit' and case['transforms']:
+        res['pre_call'] = 'raises'       # Model.transform .unfitted = none
     return res
 
 
 def close(a, b, rel=1e-6, abs_=2e-6):
     """structural equality; floats (the code computes in float32, the model in float64) within tolerance"""
+    if isinstance(a, float) and isinstance(b, float) and (math.isinf(a) or math.isinf(b)):
+        return a == b
     if isinstance(a, float) and isinstance(b, float):
         return abs(a - b) <= abs_ + rel * max(abs(a), abs(b))
     if isinstance(a, dict) and isinstance(b, dict):
